@@ -15,6 +15,14 @@ CLAIMED = {
        'run by an exhaustive differential campaign over {.,CR,LF,a}^<=7 x splits x trailing x segmentations plus random 8-bit messages, '
        'with the property itself monitored on the implementation.',
   ref='6/C05', technique='Lean 4 proof (induction over bytes/segments) + differential correspondence model vs real DataSender/DataReader'),
+ 'C17': dict(
+  text='Lean theorems over Model/Reply.lean (IO.send_reply / IO.recv_reply / Reply transliteration): wire round trip with exact '
+       'consumption for every 3-digit code, every message and every pipelined successor under every segmentation; segmentation '
+       'independence for every byte stream; BadReply for non-reply lines, mixed codes and invalid UTF-8; never a partial reply; '
+       'ESC class = code class. The ESC text fixed point (getter/setter idempotence) is validated by the exhaustive '
+       'differential campaign only, not proved. Tied to the code on every run by exhaustive token-sequence campaigns '
+       '(texts x 7 codes, malformed lines) against real Reply/IO over scripted sockets.',
+  ref='6/C17', technique='Lean 4 proof (scan/append lemma, induction over lines and segments) + differential correspondence model vs real IO/Reply'),
 }
 def main():
     props = [json.loads(l) for l in open(os.path.join(V, 'properties.jsonl'))]
